@@ -7,7 +7,8 @@ CFG = dict(
     required_theorems=["Props.C02.recv_level", "Props.C02.pp_level_fifo", "Props.C02.parked_only_below_hwm", "Props.C02.runAll_inv",
                        "Props.C02bp.bp_at_most_one_set_in_flight", "Props.C02bp.bp_partition_fifo", "Props.C02bp.bp_conservation",
                        "Props.C02bp.bp_quiet_after_failure", "Props.C02bp.bp_quiet_while_refused", "Props.C02bp.bp_bounces_in_order",
-                       "Props.C02bp.bp_bounce_order_preserving", "Props.C02bp.step_fifo", "Props.C02bp.step_quiet", "Props.C02bp.run_inv"],
+                       "Props.C02bp.bp_bounce_order_preserving", "Props.C02bp.step_fifo", "Props.C02bp.step_quiet", "Props.C02bp.run_inv",
+                       "Props.C02bp.bp_empty_set_needs_stale", "Props.C02bp.bp_stale_origin"],
     n={"quick": 800, "thorough": 15000, "search": 2000},
     thorough_seeds=3,
     timeout={"quick": 600, "thorough": 3000},
